@@ -291,7 +291,16 @@ impl Node {
                         }
                     }
                     Err(e) => {
-                        if e.to_string().contains("Decode error") {
+                        // These errors are raised only after a whole frame has been consumed,
+                        // so the stream is still in sync and the next frame can be read.
+                        if matches!(
+                            e,
+                            edp_client::Error::Decode(_)
+                                | edp_client::Error::ContextualDecode(_)
+                                | edp_client::Error::TermConversion(_)
+                                | edp_client::Error::InvalidControlMessage(_)
+                                | edp_client::Error::Protocol(_)
+                        ) {
                             tracing::warn!(
                                 "Failed to decode message from {} (likely unsupported message type): {}",
                                 remote_node,
